@@ -1,22 +1,29 @@
 #!/bin/bash
-# Runs the registered quick check of the property against every confirmed seeded change (applied to /repo,
-# reverted straight afterwards). Writes seeded/RESULTS.txt.
+# Runs the registered quick check of the property against every confirmed seeded change, each applied to a scratch
+# worktree of /repo's HEAD (HV_REPO/HV_OUT: /repo and evidence/ are not touched). Writes seeded/RESULTS.txt
+# (with an argument: only the changes whose name starts with it; RESULTS.txt is then updated in place).
 cd /verif
-out=seeded/RESULTS.txt; : > $out
-for d in seeded/*/; do
+export GOFLAGS=-mod=mod GOPROXY=off GOSUMDB=off GOTOOLCHAIN=local
+wt=$(mktemp -d /tmp/seedwt.XXXX); rmdir $wt
+git -C /repo worktree add --detach $wt HEAD >/dev/null 2>&1 || exit 2
+od=$(mktemp -d /tmp/seedout.XXXX)
+trap 'git -C /repo worktree remove --force '$wt' >/dev/null 2>&1; rm -rf '$od EXIT
+out=seeded/RESULTS.txt; [ -n "${1:-}" ] || : > $out
+for d in seeded/C*/; do
   n=$(basename $d); id=${n%%-*}
   [ -f $d/patch.diff ] || continue
   if [ -n "${1:-}" ] && [[ "$n" != $1* ]]; then continue; fi
-  claimed=$(python3 -c "import json;print(any(c['property_id']=='$id' for c in json.load(open('MANIFEST.json'))['checks']))")
-  if [ "$claimed" != "True" ]; then echo "$n: property not claimed" | tee -a $out; continue; fi
-  git -C /repo apply /verif/$d/patch.diff || { echo "$n: patch does not apply" | tee -a $out; git -C /repo checkout -- .; continue; }
-  res=$(./check $id quick 2>&1)
-  git -C /repo checkout -- .
-  if echo "$res" | grep -q "^VIOLATION property=$id"; then
-     obs=$(echo "$res" | grep "^  obligation" | sed 's/^  obligation //' | cut -d' ' -f1-2 | tr '\n' ';' | cut -c1-400)
-     echo "$n: DETECTED $obs" | tee -a $out
-  else
-     echo "$n: MISSED ($(echo "$res" | tail -1))" | tee -a $out
+  git -C $wt checkout -q -- . ; git -C $wt clean -fdq
+  if ! git -C $wt apply /verif/$d/patch.diff; then line="$n: patch does not apply"; else
+    res=$(HV_REPO=$wt HV_OUT=$od ./check $id quick 2>&1)
+    if echo "$res" | grep -q "^VIOLATION property=$id"; then
+      obs=$(echo "$res" | grep "^  obligation" | sed 's/^  obligation //' | cut -d' ' -f1-2 | tr '\n' ';' | cut -c1-400)
+      rep=""; echo "$res" | grep "^VIOLATION" | grep -qv "no-failing-input-found" && rep=" REPLAYED"
+      line="$n: DETECTED$rep $obs"
+    else
+      line="$n: MISSED ($(echo "$res" | tail -1))"
+    fi
   fi
+  echo "$line"
+  if [ -n "${1:-}" ]; then grep -v "^$n:" $out > $out.tmp; echo "$line" >> $out.tmp; sort $out.tmp > $out; rm $out.tmp; else echo "$line" >> $out; fi
 done
-git -C /repo status --short | grep -v '^??' && echo "WARNING: /repo not clean"
